@@ -111,6 +111,46 @@ Section Objective.
     - left. auto.
   Qed.
 
+  (* the accepted step length lies in [0, t0] *)
+  Lemma bt_loop_le : forall fuel point d value gtd t t' fn gn,
+    bt_loop f grad fuel point d value gtd t = Some (t', fn, gn) -> 0 <= t -> 0 <= t' /\ t' <= t.
+  Proof.
+    induction fuel as [|k IH]; intros point d value gtd t t' fn gn H Ht; simpl in H; [discriminate|].
+    destruct (qltb _ _) eqn:E.
+    - inversion H; subst. split; [exact Ht | apply Qle_refl].
+    - apply IH in H.
+      + destruct H as [A B]. split; [exact A|]. rewrite qmul_eq in B. unfold half in B. lra.
+      + rewrite qmul_eq. apply mul_nonneg; auto. unfold half. lra.
+  Qed.
+
+  Lemma backtracking_cases : forall point d value g t0,
+    let '(p', v', g') := backtracking f grad point d value g t0 in
+    (p' = point /\ v' = value /\ g' = g) \/
+    exists t, p' = vadd point (vscale t d) /\ (0 <= t0 -> 0 <= t /\ t <= t0).
+  Proof.
+    intros. unfold backtracking.
+    destruct (bt_loop _ _ _ _ _ _ _ _) as [[[t fn] gn]|] eqn:E.
+    - right. exists t. split; [reflexivity|]. intro H0. eapply bt_loop_le; eauto.
+    - left. auto.
+  Qed.
+
+  (* the initial step length is never negative *)
+  Lemma halve_feasible_nonneg : forall fuel p d t, 0 <= t -> 0 <= halve_feasible feasible fuel p d t.
+  Proof.
+    induction fuel; intros p d t H; simpl; [apply Qle_refl|].
+    destruct (feasible _); auto. apply IHfuel. rewrite qmul_eq. apply mul_nonneg; auto. unfold half. lra.
+  Qed.
+
+  Lemma init_step_len_nonneg : forall g, 0 <= init_step_len g.
+  Proof.
+    intros g. unfold init_step_len. destruct (Qeq_bool _ _); [lra|].
+    destruct (Qle_bool _ _); [lra|]. rewrite Qred_correct. apply Qinv_le_0_compat. apply sumabs_nonneg.
+  Qed.
+
+  Lemma halve_feasible_nonneg_pre : forall fuel p d g,
+    0 <= halve_feasible feasible fuel p d (init_step_len g).
+  Proof. intros. apply halve_feasible_nonneg. apply init_step_len_nonneg. Qed.
+
   Section LineSearchOptimizer.
     Variable M : Type.
     Variable init_model : nat -> M.
@@ -166,6 +206,114 @@ Section Objective.
       rewrite <- C, <- C'. apply step_monotone; auto.
     Qed.
 
+    (* ---- the intermediate record of step(): state after the line search, before computeSearchDirection ---- *)
+    Definition ls_mid (s : ls_state M) : ls_state M :=
+      let '(p', v', g') := backtracking f grad (pt s) (sdir s) (val s) (der s) (step_len s) in
+      {| ls_min := ls_min s; ls_max := ls_max s; ls_type := ls_type s;
+         step_len := 1; dim := dim s; pt := p'; val := v'; der := g'; sdir := sdir s;
+         last_der := der s; last_pt := pt s; last_val := val s; extra := extra s |}.
+
+    Lemma step_via_mid : forall s,
+      pt (step s) = pt (ls_mid s) /\ val (step s) = val (ls_mid s) /\ der (step s) = der (ls_mid s) /\
+      sdir (step s) = snd (compute_dir (ls_mid s)) /\ step_len (step s) = 1.
+    Proof.
+      intros s. unfold ls_step, ls_mid.
+      destruct (backtracking _ _ _ _ _ _ _) as [[p' v'] g'].
+      destruct (compute_dir _) as [m' d']. cbn. repeat split; reflexivity.
+    Qed.
+
+    (* ---- monotonicity of the whole run for every direction rule that never returns an ascent direction
+       (steepest descent; quasi-Newton rules with a positive definite matrix) ---- *)
+    Section DescentOracle.
+      Hypothesis dir_descent : forall s1, dot (der s1) (snd (compute_dir s1)) <= 0.
+
+      Definition minv (s : ls_state M) : Prop := 0 <= step_len s /\ dot (der s) (sdir s) <= 0.
+
+      Lemma minv_step : forall s, minv (step s).
+      Proof.
+        intros s. destruct (step_via_mid s) as (_ & _ & C & D & E). unfold minv.
+        rewrite C, D, E. split; [lra | apply dir_descent].
+      Qed.
+
+      Lemma minv_run : forall n s, minv s -> minv (run n s).
+      Proof. induction n; intros s H; simpl; auto. apply IHn. apply minv_step. Qed.
+
+      Lemma minv_init : forall ty x0, minv (init ty x0).
+      Proof.
+        intros ty x0. unfold minv, ls_init. cbn [sdir der step_len]. split.
+        - apply halve_feasible_nonneg_pre.
+        - apply dot_neg_nonpos.
+      Qed.
+
+      Theorem run_monotone_descent_oracle : forall ty x0 n,
+        let s := run n (init ty x0) in
+        val (step s) <= val s /\ f (pt (step s)) <= f (pt s).
+      Proof.
+        intros ty x0 n s.
+        assert (minv s) as [Ht Hg] by (apply minv_run, minv_init).
+        assert (consistent s) as C by (apply run_consistent, init_consistent).
+        split; [apply step_monotone | apply step_monotone_f]; auto.
+      Qed.
+    End DescentOracle.
+
+    (* ---- feasibility for convex feasible regions: the line search only visits points of the segment
+       [x, x + t0 d]; init halves t0 until x + t0 d is feasible, later steps use t0 = 1 and rely on the
+       direction rule returning d with x + d feasible (L-BFGS checks exactly this at run time and throws
+       "internal error" otherwise) ---- *)
+    Section SegmentFeasible.
+      Hypothesis feasible_segment : forall x d t0 t,
+        0 <= t -> t <= t0 -> feasible x = true -> feasible (vadd x (vscale t0 d)) = true ->
+        feasible (vadd x (vscale t d)) = true.
+      Hypothesis dir_feasible : forall s1,
+        feasible (pt s1) = true -> feasible (vadd (pt s1) (vscale 1 (snd (compute_dir s1)))) = true.
+
+      Definition finv (s : ls_state M) : Prop :=
+        feasible (pt s) = true /\ 0 <= step_len s /\
+        feasible (vadd (pt s) (vscale (step_len s) (sdir s))) = true.
+
+      Lemma mid_feasible : forall s, finv s -> feasible (pt (ls_mid s)) = true.
+      Proof.
+        intros s (F & Ht & Fd). unfold ls_mid.
+        pose proof (backtracking_cases (pt s) (sdir s) (val s) (der s) (step_len s)) as H.
+        destruct (backtracking _ _ _ _ _ _ _) as [[p' v'] g']. cbn [pt].
+        destruct H as [(P & _) | (t & P & T)].
+        - rewrite P. exact F.
+        - rewrite P. destruct (T Ht) as [T0 T1]. eapply feasible_segment; eauto.
+      Qed.
+
+      Lemma finv_step : forall s, finv s -> finv (step s).
+      Proof.
+        intros s H. pose proof (mid_feasible s H) as Fm.
+        destruct (step_via_mid s) as (A & _ & _ & D & E). unfold finv.
+        rewrite A, D, E. repeat split; [exact Fm | lra | apply dir_feasible; exact Fm].
+      Qed.
+
+      Lemma finv_run : forall n s, finv s -> finv (run n s).
+      Proof. induction n; intros s H; simpl; auto. apply IHn. apply finv_step; auto. Qed.
+
+      Lemma halve_feasible_ok : forall fuel x d t,
+        feasible (vadd x (vscale 0 d)) = true ->
+        feasible (vadd x (vscale (halve_feasible feasible fuel x d t) d)) = true.
+      Proof.
+        induction fuel as [|k IH]; intros x d t H0; simpl; [exact H0|].
+        destruct (feasible (vadd x (vscale t d))) eqn:E; [exact E | apply IH; exact H0].
+      Qed.
+
+      Lemma finv_init : forall ty x0,
+        feasible x0 = true -> feasible (vadd x0 (vscale 0 (vneg (grad x0)))) = true -> finv (init ty x0).
+      Proof.
+        intros ty x0 F F0. unfold finv, ls_init. cbn [pt sdir step_len]. repeat split.
+        - exact F.
+        - apply halve_feasible_nonneg_pre.
+        - apply halve_feasible_ok. exact F0.
+      Qed.
+
+      Theorem run_feasible_segment : forall ty x0 n,
+        feasible x0 = true -> feasible (vadd x0 (vscale 0 (vneg (grad x0)))) = true ->
+        feasible (pt (run n (init ty x0))) = true.
+      Proof. intros ty x0 n F F0. apply (finv_run n (init ty x0)). apply finv_init; auto. Qed.
+    End SegmentFeasible.
+
     (* ---- box constraints: a feasible point stays feasible when infeasible points are reported as not
        better than feasible ones (what a penalising / barrier objective does) ---- *)
     Hypothesis infeasible_worse : forall x y, feasible x = false -> feasible y = true -> f y <= f x.
@@ -194,48 +342,19 @@ Section Objective.
   Notation sdstep := (ls_step f grad unit sd_dir).
   Notation sdrun := (ls_run f grad unit sd_dir).
 
-  Definition sd_inv (s : ls_state unit) : Prop := sdir s = vneg (der s) /\ 0 <= step_len s.
-
-  Lemma halve_feasible_nonneg : forall fuel p d t, 0 <= t -> 0 <= halve_feasible feasible fuel p d t.
-  Proof.
-    induction fuel; intros p d t H; simpl; auto.
-    destruct (feasible _); auto. apply IHfuel. rewrite qmul_eq. apply mul_nonneg; auto. unfold half. lra.
-  Qed.
-
-  Lemma init_step_len_nonneg : forall g, 0 <= init_step_len g.
-  Proof.
-    intros g. unfold init_step_len. destruct (Qeq_bool _ _); [lra|].
-    destruct (Qle_bool _ _); [lra|]. rewrite Qred_correct. apply Qinv_le_0_compat. apply sumabs_nonneg.
-  Qed.
-
-  Lemma sd_inv_init : forall ty x0, sd_inv (sdinit ty x0).
-  Proof. intros. split; simpl; auto. apply halve_feasible_nonneg. apply init_step_len_nonneg. Qed.
-
-  Lemma sd_inv_step : forall s, sd_inv (sdstep s).
-  Proof.
-    intros s. unfold ls_step.
-    destruct (backtracking _ _ _ _ _ _ _) as [[p' v'] g']. simpl. split; simpl; auto. lra.
-  Qed.
-
-  Lemma sd_inv_run : forall n s, sd_inv s -> sd_inv (sdrun n s).
-  Proof. induction n; intros s H; simpl; auto. apply IHn. apply sd_inv_step. Qed.
+  Lemma sd_dir_descent : forall s1 : ls_state unit, dot (der s1) (snd (sd_dir s1)) <= 0.
+  Proof. intros s1. unfold sd_dir. cbn [snd]. apply dot_neg_nonpos. Qed.
 
   Theorem steepest_descent_linesearch_monotone : forall ty x0 n,
     let s := sdrun n (sdinit ty x0) in
     val (sdstep s) <= val s /\ f (pt (sdstep s)) <= f (pt s).
-  Proof.
-    intros ty x0 n s.
-    assert (sd_inv s) as [Hd Ht] by (apply sd_inv_run, sd_inv_init).
-    assert (consistent s) as C by (apply run_consistent, init_consistent).
-    assert (dot (der s) (sdir s) <= 0) as Hg by (rewrite Hd; apply dot_neg_nonpos).
-    split; [apply step_monotone | apply step_monotone_f]; auto.
-  Qed.
+  Proof. intros ty x0 n. apply (run_monotone_descent_oracle unit sd_init_model sd_dir sd_dir_descent). Qed.
 
   (* ---------- SteepestDescent (learning rate + momentum) ---------- *)
   Lemma sd_run_consistent : forall n s,
     sd_val s = f (sd_pt s) /\ sd_der s = grad (sd_pt s) ->
     let r := sd_run f grad n s in sd_val r = f (sd_pt r) /\ sd_der r = grad (sd_pt r).
-  Proof. induction n; intros s H; simpl; auto. apply IHn. split; reflexivity. Qed.
+  Proof. induction n; intros s H; cbn [sd_run]; [exact H|]. apply IHn. split; reflexivity. Qed.
 
   Theorem steepestdescent_state_consistent : forall lr mom x0 n,
     let r := sd_run f grad n (sd_init f grad lr mom x0) in
@@ -273,6 +392,142 @@ Theorem sd_saverestore_full_continues : forall f grad fresh s s',
   forall n, sd_run f grad n s' = sd_run f grad n s.
 Proof. intros f grad fresh s s' H n. rewrite sd_restore_save_full in H. inversion H. reflexivity. Qed.
 
+(* CG: the archived member list (base class + m_count) is the whole model state *)
+Lemma cg_extra_roundtrip : forall c, cg_restore_extra (cg_save_extra c) = Some c.
+Proof. reflexivity. Qed.
+
+Theorem cg_saverestore_continues : forall f grad (fresh s s' : ls_state nat),
+  ls_restore nat cg_restore_extra fresh (ls_save nat cg_save_extra s) = Some s' ->
+  forall n, ls_run f grad nat cg_dir n s' = ls_run f grad nat cg_dir n s.
+Proof. intros f grad fresh s s'. apply ls_saverestore_continues. exact cg_extra_roundtrip. Qed.
+
+Theorem cg_restore_total : forall fresh s : ls_state nat,
+  ls_restore nat cg_restore_extra fresh (ls_save nat cg_save_extra s) = Some s.
+Proof. intros. apply ls_restore_save. exact cg_extra_roundtrip. Qed.
+
+Theorem cg_saverestore_total_and_continues : forall (f : vec -> Q) (grad : vec -> vec) (fresh s : ls_state nat),
+  ls_restore nat cg_restore_extra fresh (ls_save nat cg_save_extra s) = Some s /\
+  forall s', ls_restore nat cg_restore_extra fresh (ls_save nat cg_save_extra s) = Some s' ->
+  forall n, ls_run f grad nat cg_dir n s' = ls_run f grad nat cg_dir n s.
+Proof. intros f grad fresh s. split; [apply cg_restore_total | apply cg_saverestore_continues]. Qed.
+
+(* ---------- boxes are segment-convex ---------- *)
+Lemma coord_segment : forall a b c e t0 t,
+  0 <= t -> t <= t0 -> a <= c -> c <= b -> a <= qadd c (qmul t0 e) -> qadd c (qmul t0 e) <= b ->
+  a <= qadd c (qmul t e) /\ qadd c (qmul t e) <= b.
+Proof.
+  intros a b c e t0 t H0 H1 Ha Hb Ha' Hb'.
+  rewrite qadd_eq, qmul_eq in *.
+  destruct (Qlt_le_dec e 0) as [En|Ep].
+  - assert (t0 * e <= t * e) by nra. assert (t * e <= 0) by nra. split; lra.
+  - assert (t * e <= t0 * e) by nra. assert (0 <= t * e) by nra. split; lra.
+Qed.
+
+Lemma box_segment : forall l u x d t0 t,
+  0 <= t -> t <= t0 -> box_feasb l u x = true -> box_feasb l u (vadd x (vscale t0 d)) = true ->
+  box_feasb l u (vadd x (vscale t d)) = true.
+Proof.
+  induction l as [|a l IH]; intros u x d t0 t H0 H1 Hx Hd.
+  - destruct u, x; try discriminate. reflexivity.
+  - destruct u as [|b u]; [discriminate|]. destruct x as [|c x]; [discriminate|].
+    destruct d as [|e d]; [discriminate|].
+    cbn [vscale map vadd box_feasb] in *.
+    apply andb_prop in Hx. destruct Hx as [Hx1 Hx]. apply andb_prop in Hx1. destruct Hx1 as [Xa Xb].
+    apply andb_prop in Hd. destruct Hd as [Hd1 Hd]. apply andb_prop in Hd1. destruct Hd1 as [Da Db].
+    apply Qle_bool_iff in Xa, Xb, Da, Db.
+    destruct (coord_segment a b c e t0 t H0 H1 Xa Xb Da Db) as [Ra Rb].
+    apply Qle_bool_iff in Ra, Rb. rewrite Ra, Rb. cbn [andb].
+    exact (IH u x d t0 t H0 H1 Hx Hd).
+Qed.
+
+(* x + 0*d = x coordinate-wise when d has the length of x *)
+Lemma box_zero_step : forall l u x d, length d = length x ->
+  box_feasb l u x = true -> box_feasb l u (vadd x (vscale 0 d)) = true.
+Proof.
+  induction l as [|a l IH]; intros u x d L Hx.
+  - destruct u, x; try discriminate. destruct d; reflexivity.
+  - destruct u as [|b u]; [discriminate|]. destruct x as [|c x]; [discriminate|].
+    destruct d as [|e d]; [discriminate|]. cbn [vscale map vadd box_feasb] in *.
+    apply andb_prop in Hx. destruct Hx as [Hx1 Hx]. apply andb_prop in Hx1. destruct Hx1 as [Xa Xb].
+    apply Qle_bool_iff in Xa, Xb.
+    assert (qadd c (qmul 0 e) == c) as E by (rewrite qadd_eq, qmul_eq; ring).
+    assert (Qle_bool a (qadd c (qmul 0 e)) = true) as Ra by (apply Qle_bool_iff; rewrite E; exact Xa).
+    assert (Qle_bool (qadd c (qmul 0 e)) b = true) as Rb by (apply Qle_bool_iff; rewrite E; exact Xb).
+    rewrite Ra, Rb. cbn [andb]. apply IH; auto.
+Qed.
+
+Lemma vneg_length : forall v, length (vneg v) = length v.
+Proof. intros. unfold vneg. apply map_length. Qed.
+
+(* box-constrained line-search optimiser (backtracking): every iterate is feasible, for every objective and
+   every direction rule that returns d with x + d inside the box *)
+Theorem box_feasible_run : forall (f : vec -> Q) (grad : vec -> vec) (l u : vec)
+    (M : Type) (init_model : nat -> M) (compute_dir : ls_state M -> M * vec),
+  (forall s1, box_feasb l u (pt s1) = true ->
+              box_feasb l u (vadd (pt s1) (vscale 1 (snd (compute_dir s1)))) = true) ->
+  forall ty x0 n,
+  box_feasb l u x0 = true -> length (grad x0) = length x0 ->
+  box_feasb l u (pt (ls_run f grad M compute_dir n (ls_init f grad (box_feasb l u) M init_model ty x0))) = true.
+Proof.
+  intros f grad l u M init_model compute_dir Hdir ty x0 n F L.
+  apply (run_feasible_segment f grad (box_feasb l u) M init_model compute_dir (box_segment l u) Hdir); auto.
+  apply box_zero_step; auto. rewrite vneg_length. exact L.
+Qed.
+
+Theorem box_feasible_slack_run : forall (f : vec -> Q) (grad : vec -> vec) (eps : Q) (l u : vec)
+    (M : Type) (init_model : nat -> M) (compute_dir : ls_state M -> M * vec),
+  (forall s1, box_feasb_slack eps l u (pt s1) = true ->
+              box_feasb_slack eps l u (vadd (pt s1) (vscale 1 (snd (compute_dir s1)))) = true) ->
+  forall ty x0 n,
+  box_feasb_slack eps l u x0 = true -> length (grad x0) = length x0 ->
+  box_feasb_slack eps l u (pt (ls_run f grad M compute_dir n (ls_init f grad (box_feasb_slack eps l u) M init_model ty x0))) = true.
+Proof. intros f grad eps l u. unfold box_feasb_slack. apply box_feasible_run. Qed.
+
+(* the hypothesis on the direction rule is satisfiable: projected steepest descent d = clip(x - g) - x *)
+Definition qclip (a b y : Q) : Q := if Qle_bool y a then a else if Qle_bool b y then b else y.
+Fixpoint proj_dir (l u x g : vec) : vec :=
+  match l, u, x with
+  | a :: l', b :: u', c :: x' =>
+    qsub (qclip a b (qsub c (hd 0 g))) c :: proj_dir l' u' x' (tl g)
+  | _, _, _ => []
+  end.
+
+Lemma qclip_in : forall a b y, a <= b -> a <= qclip a b y /\ qclip a b y <= b.
+Proof.
+  intros a b y H. unfold qclip.
+  destruct (Qle_bool y a) eqn:E1; [split; [apply Qle_refl | exact H]|].
+  destruct (Qle_bool b y) eqn:E2; [split; [exact H | apply Qle_refl]|].
+  assert (~ y <= a) as N1 by (intro X; apply Qle_bool_iff in X; congruence).
+  assert (~ b <= y) as N2 by (intro X; apply Qle_bool_iff in X; congruence).
+  split; lra.
+Qed.
+
+Lemma proj_dir_feasible : forall l u x g,
+  box_feasb l u x = true -> box_feasb l u (vadd x (vscale 1 (proj_dir l u x g))) = true.
+Proof.
+  induction l as [|a l IH]; intros u x g Hx.
+  - destruct u, x; try discriminate. reflexivity.
+  - destruct u as [|b u]; [discriminate|]. destruct x as [|c x]; [discriminate|].
+    cbn [proj_dir vscale map vadd box_feasb] in *. set (e := hd 0 g).
+    apply andb_prop in Hx. destruct Hx as [Hx1 Hx]. apply andb_prop in Hx1. destruct Hx1 as [Xa Xb].
+    apply Qle_bool_iff in Xa, Xb.
+    assert (a <= b) as AB by lra.
+    destruct (qclip_in a b (qsub c e) AB) as [Ca Cb].
+    assert (qadd c (qmul 1 (qsub (qclip a b (qsub c e)) c)) == qclip a b (qsub c e)) as E
+      by (rewrite qadd_eq, qmul_eq, qsub_eq; ring).
+    assert (Qle_bool a (qadd c (qmul 1 (qsub (qclip a b (qsub c e)) c))) = true) as Ra
+      by (apply Qle_bool_iff; rewrite E; exact Ca).
+    assert (Qle_bool (qadd c (qmul 1 (qsub (qclip a b (qsub c e)) c))) b = true) as Rb
+      by (apply Qle_bool_iff; rewrite E; exact Cb).
+    rewrite Ra, Rb. cbn [andb]. apply IH; auto.
+Qed.
+
+Definition proj_oracle (l u : vec) (s1 : ls_state unit) : unit * vec := (tt, proj_dir l u (pt s1) (der s1)).
+
+Lemma proj_oracle_feasible : forall l u s1, box_feasb l u (pt s1) = true ->
+  box_feasb l u (vadd (pt s1) (vscale 1 (snd (proj_oracle l u s1)))) = true.
+Proof. intros. unfold proj_oracle. cbn [snd]. apply proj_dir_feasible. assumption. Qed.
+
 (* ---------- concrete instances (vm_compute) ---------- *)
 (* exact convex quadratic f(x,y) = x^2 + 2 y^2 - x - y/2 with dyadic data *)
 Definition exq_f (x : vec) : Q :=
@@ -293,12 +548,12 @@ Fixpoint strictly_decreasing (l : list Q) : bool :=
   | _ => true
   end.
 
-Definition exq_trace := ls_trace exq_f exq_grad unit sd_dir 6 (ls_init exq_f exq_grad all_true unit sd_init_model 2 [4; -2]).
+Definition exq_trace := ls_trace exq_f exq_grad unit sd_dir 3 (ls_init exq_f exq_grad all_true unit sd_init_model 2 [4; -2]).
 
 Example quadratic_iterates_decrease :
   strictly_decreasing (map val exq_trace) = true /\
   forallb (fun s => Qeq_bool (val s) (exq_f (pt s))) exq_trace = true /\
-  length exq_trace = 7%nat.
+  length exq_trace = 4%nat /\ map pt (skipn 3 exq_trace) = [[1 # 2; 1 # 8]].   (* the minimiser, reached exactly *)
 Proof. vm_compute. repeat split. Qed.
 
 (* SteepestDescent with learning rate 1/8 and momentum 1/2 on the same quadratic *)
@@ -338,3 +593,19 @@ Example steepestdescent_coded_restore_refuted :
   exists s', sd_restore_coded f16_fresh (sd_save_coded f16_s) = Some s' /\
              sd_pt (sd_step exq_f exq_grad s') <> sd_pt (sd_step exq_f exq_grad f16_s).
 Proof. eexists. split; [reflexivity|]. vm_compute. discriminate. Qed.
+
+(* box-constrained run with the projected direction on the quadratic above, box [1,3] x [-2,0]: the
+   unconstrained minimiser (1/2, 1/8) is outside; all iterates stay inside *)
+Definition exb_l : vec := [1; -2].
+Definition exb_u : vec := [3; 0].
+Definition exb_trace := ls_trace exq_f exq_grad unit (proj_oracle exb_l exb_u) 4
+  (ls_init exq_f exq_grad (box_feasb exb_l exb_u) unit sd_init_model 2 [2; -1]).
+Example box_iterates_feasible :
+  forallb (fun s => box_feasb exb_l exb_u (pt s)) exb_trace = true /\
+  map pt (skipn 4 exb_trace) = [[1; 0]].
+Proof. vm_compute. split; reflexivity. Qed.
+
+(* the generic quadratic of the correspondence check *)
+Example quad_f_example :
+  quad_f [[2; 0]; [0; 4]] [1; 1 # 2] [4; -2] = 21 /\ quad_grad [[2; 0]; [0; 4]] [1; 1 # 2] [4; -2] = [7; -17 # 2].
+Proof. vm_compute. split; reflexivity. Qed.
